@@ -115,6 +115,9 @@ func c01NestedOne(c *core.Ctx, dir string, k c01NestedCase) {
 }
 
 func c01NestedRun(c *core.Ctx) {
+	if c01FamilyOff("nested-rollback") {
+		return
+	}
 	dir := core.Scratch("c01nested")
 	kinds := []string{"if", "while", "case", "func"}
 	var shapes [][]string
